@@ -60,6 +60,19 @@ func roots(tier string) []world.Root {
 			voice[i].Flows[j].Type = "voice"
 		}
 		out = append(out, world.Root{Flows: &voice[i], Trigger: "voice", Opt: world.Options{MaxSteps: 8}})
+		// the resume limit in sessions whose waits are dial waits (or a mix), reached at the first and
+		// at the second resume
+		hasDial := false
+		for _, fl := range voice[i].Flows {
+			for _, n := range fl.Nodes {
+				hasDial = hasDial || n.Kind == "D"
+			}
+		}
+		if hasDial {
+			for _, lim := range []int{1, 2} {
+				out = append(out, world.Root{Flows: &voice[i], Trigger: "voice", Opt: world.Options{MaxSteps: 8, MaxResumes: lim}})
+			}
+		}
 	}
 	return out
 }
@@ -526,7 +539,9 @@ func evaluate(c *mc.Ctx, st *state, rp *replay, count bool) []sm.Problem {
 		}
 		// impossible conditions end the session failed with a failure event
 		impossible := rp.Fault == "waiting-flow-deleted" || rp.Fault == "waiting-node-deleted" || rp.Fault == "router-removed" || rp.Fault == "wait-removed"
-		if rp.Root.Opt.MaxResumes == 1 && wasWaiting && (rp.Fault == "" || rp.Fault == "timeout-removed" || rp.Fault == "wait-type-changed") {
+		// (states are reached by accepted resumes only, so this is resume number len(hist): the limit is
+		// reached when that many waits have begun)
+		if rp.Root.Opt.MaxResumes > 0 && len(st.hist) >= rp.Root.Opt.MaxResumes && wasWaiting && (rp.Fault == "" || rp.Fault == "timeout-removed" || rp.Fault == "wait-type-changed") {
 			impossible = true // the resume limit is reached
 			if count {
 				c.Fact("resume_limit_reached")
